@@ -207,6 +207,9 @@ impl FrameStats { #[verifier::external_body] pub fn bump(&mut self) { unimplemen
 /// `VarInt::try_from(x)`
 pub fn varint_try_from(x: u64) -> (r: Result<VarInt, ()>) ensures match r { Ok(v) => v.0 == x && x < 0x4000_0000_0000_0000, Err(_) => x >= 0x4000_0000_0000_0000 }
 { if x < 0x4000_0000_0000_0000 { Ok(VarInt(x)) } else { Err(()) } }
+pub assume_specification<T, F: FnOnce(T) -> bool> [std::option::Option::<T>::is_some_and] (o: std::option::Option<T>, f: F) -> (r: bool)
+    requires o.is_some() ==> call_requires(f, (o.unwrap(),)),
+    ensures o.is_none() ==> !r, o.is_some() ==> call_ensures(f, (o.unwrap(),), r);
 pub assume_specification<T, E> [Result::<T, E>::unwrap_or] (r: Result<T, E>, d: T) -> (v: T) ensures v == (match r { Ok(x) => x, Err(_) => d });
 /// what `buf.write(x)` / `buf.write_var(x)` append: a varint, VarInt::size bytes (unit frame_codec proves the encoders against their images)
 pub trait Enc { spec fn enc_len(&self) -> usize; }
